@@ -149,7 +149,7 @@ pub fn job_c02(out_dir: &str, tier: &str, seed: u64) {
             let enc = if ii % 4 == 3 { encs[(ii / 4 + si) % encs.len()] } else { "utf-8" };
             let cfg = gen::merge(hs, &json!({"strict": (ii + si) % 3 != 0, "enc": enc, "mem": {"prealloc": *rng.pick(&[0usize, 4, 1024])}}));
             let base = observation("single-write", &driver::run(&cfg, input, &[], &RunOpts::default()), &all);
-            let cutsets = if input.len() <= 24 { gen::cut_sets(input.len(), &mut rng, if quick { 9 } else { 20 }, 2) } else { gen::light_cut_sets(input.len(), &mut rng, 4) };
+            let cutsets = if input.len() <= 90 { gen::cut_sets(input.len(), &mut rng, if quick { 9 } else { 20 }, 2) } else { gen::light_cut_sets(input.len(), &mut rng, 4) };
             let mut others = Vec::new();
             for cuts in cutsets.iter().skip(1) {
                 let o = observation("chunked", &driver::run(&cfg, input, cuts, &RunOpts::default()), &all);
@@ -235,7 +235,8 @@ pub fn job_c06(out_dir: &str, tier: &str, seed: u64) {
             for oi in 0..(if quick { 4 } else { osets.len() }) {
                 let o = &osets[(ii + oi * 3 + hi) % osets.len()];
                 let cfg_ho = gen::merge(&concat(h, o), &settings);
-                for cuts in gen::light_cut_sets(input.len(), &mut rng, 1) {
+                let cs = if input.len() <= 60 && oi == 0 { gen::cut_sets(input.len(), &mut rng, 0, 1) } else { gen::light_cut_sets(input.len(), &mut rng, 1) };
+                for cuts in cs {
                     let ob = observation("H+O", &driver::run(&cfg_ho, input, &cuts, &RunOpts::default()), &keep);
                     others.push((ob, json!({"cfg_ho": cfg_ho, "cuts": cuts})));
                 }
